@@ -15,6 +15,7 @@ invariance, species-swap column exchange as numbers, floating-point accuracy.  T
 from __future__ import annotations
 
 from .common import *  # noqa
+from .common import _is_index_expr
 from .grlib import REMOVE_PBC, no_wrap_possible
 from ..vg import Interp
 
@@ -269,7 +270,7 @@ def check_particle_index(run, pkg):
             ok = True if P in comps else None
             if ok is None:
                 for c_ in comps:
-                    if any(x == P for x in walk(c_)) and eqv(c_, P) is False:
+                    if any(x == P for x in walk(c_)) and _is_index_expr(c_) and eqv(c_, P) is False:
                         ok = False         # an index computed from the particle counter that is not the counter itself
             n += 1
             run.ob("R-IDX", fq, f"slot@{key_of(ev)[:60]}", ok, "the result of particle i is stored at index i (relabelling particles permutes the output accordingly)", show(idx)[:50],
